@@ -1,1 +1,237 @@
-import GeoModel
+/-
+  C15 — the great-circle primitives of geo/geo.go are mutually consistent.
+
+  All statements are about the definitions GENERATED from the Go source
+  (GeoModel/Generated/GeoFormulas.lean, `Geo.Gen.*`) at the exact instance `GeoNum ℝ`
+  (GeoProofs/GeoReal.lean).  The tolerance clauses of the property concern float64 and are
+  validated numerically elsewhere; over ℝ the identities are exact.
+
+  `R` = 6371000 = earthRadius (metres), so `π * R` is half the circumference.
+
+  Finding (see `destination_lon_range_counterexample`): DestinationPoint's longitude
+  normalisation `math.Mod(λ2+3π, 2π) − π` relies on the dividend being non-negative (Go's Mod
+  has the sign of the dividend).  For start longitudes below −360° the result leaves
+  [−180, 180]: DestinationPoint(0, −810, 0, 0) = (0, −450).  The range theorem is proved under
+  the hypothesis `-360 ≤ lon` (in particular for every valid longitude).
+-/
+import GeoProofs.GeoLemmas
+
+namespace Geo.C15
+open Geo GeoReal Real
+
+local notation "R" => (6371000 : ℝ)
+local notation "rad" => (π / 180)
+local notation "deg" => (180 / π)
+
+/-! ### Haversine -/
+
+theorem haversine_symm (a b c d : ℝ) : Gen.haversine a b c d = Gen.haversine c d a b := by
+  rw [haversine_eq, haversine_eq,
+    show (a * rad - c * rad) / 2 = -((c * rad - a * rad) / 2) by ring,
+    show (b * rad - d * rad) / 2 = -((d * rad - b * rad) / 2) by ring, sin_neg, sin_neg]
+  ring
+
+theorem haversine_self (a b : ℝ) : Gen.haversine a b a b = 0 := by
+  simp [haversine_eq]
+
+/-- for latitudes in [−90, 90] (non-negative cosines) -/
+theorem haversine_nonneg (a b c d : ℝ) (ha : -90 ≤ a ∧ a ≤ 90) (hc : -90 ≤ c ∧ c ≤ 90) :
+    0 ≤ Gen.haversine a b c d := by
+  rw [haversine_eq]
+  exact hav_nonneg (cos_lat_nonneg ha) (cos_lat_nonneg hc)
+
+theorem haversine_le_one (a b c d : ℝ) (ha : -90 ≤ a ∧ a ≤ 90) (hc : -90 ≤ c ∧ c ≤ 90) :
+    Gen.haversine a b c d ≤ 1 := by
+  rw [haversine_eq]
+  exact hav_le_one (cos_lat_nonneg ha) (cos_lat_nonneg hc)
+
+/-! ### DistanceTo (no hypotheses needed: arcsin ∘ sqrt is clamped to [0, π/2]) -/
+
+theorem distanceFromHaversine_nonneg (h : ℝ) : 0 ≤ Gen.distanceFromHaversine h := by
+  rw [distanceFromHaversine_eq]
+  have := arcsin_nonneg.2 (sqrt_nonneg h)
+  positivity
+
+theorem distanceFromHaversine_le (h : ℝ) : Gen.distanceFromHaversine h ≤ π * R := by
+  rw [distanceFromHaversine_eq]
+  have := arcsin_le_pi_div_two (√h)
+  nlinarith
+
+theorem distanceTo_nonneg (a b c d : ℝ) : 0 ≤ Gen.distanceTo a b c d := by
+  rw [distanceTo_eq]; exact distanceFromHaversine_nonneg _
+
+theorem distanceTo_le_half_circumference (a b c d : ℝ) : Gen.distanceTo a b c d ≤ π * R := by
+  rw [distanceTo_eq]; exact distanceFromHaversine_le _
+
+theorem distanceTo_symm (a b c d : ℝ) : Gen.distanceTo a b c d = Gen.distanceTo c d a b := by
+  rw [distanceTo_eq, distanceTo_eq, haversine_symm]
+
+theorem distanceTo_self (a b : ℝ) : Gen.distanceTo a b a b = 0 := by
+  rw [distanceTo_eq, haversine_self, distanceFromHaversine_eq]; simp
+
+/-! ### distance ↔ haversine -/
+
+/-- the haversine value is a strictly increasing function of the distance on [0, πR] -/
+theorem distanceToHaversine_strictMono :
+    StrictMonoOn (Gen.distanceToHaversine : ℝ → ℝ) (Set.Icc 0 (π * R)) := by
+  intro x hx y hy hxy
+  simp only [distanceToHaversine_eq]
+  obtain ⟨hx0, hx1⟩ := half_angle_mem ⟨hx.1, hx.2⟩
+  obtain ⟨hy0, hy1⟩ := half_angle_mem ⟨hy.1, hy.2⟩
+  have hlt : x / (2 * R) < y / (2 * R) := by
+    apply div_lt_div_of_pos_right hxy; norm_num
+  have hs : sin (x / (2 * R)) < sin (y / (2 * R)) :=
+    strictMonoOn_sin ⟨by linarith [pi_pos], hx1⟩ ⟨by linarith [pi_pos], hy1⟩ hlt
+  have h0 : 0 ≤ sin (x / (2 * R)) := sin_nonneg_of_nonneg_of_le_pi hx0 (by linarith [pi_pos])
+  exact pow_lt_pow_left₀ hs h0 (by norm_num)
+
+theorem distanceFrom_to_id (m : ℝ) (h : 0 ≤ m ∧ m ≤ π * R) :
+    Gen.distanceFromHaversine (Gen.distanceToHaversine m) = m := by
+  rw [distanceToHaversine_eq, distanceFromHaversine_eq]
+  obtain ⟨h0, h1⟩ := half_angle_mem h
+  have hs : 0 ≤ sin (m / (2 * R)) := sin_nonneg_of_nonneg_of_le_pi h0 (by linarith [pi_pos])
+  rw [sqrt_sq hs, arcsin_sin (by linarith [pi_pos]) h1]
+  field_simp
+
+theorem distanceTo_from_id (h : ℝ) (hh : 0 ≤ h ∧ h ≤ 1) :
+    Gen.distanceToHaversine (Gen.distanceFromHaversine h) = h := by
+  rw [distanceFromHaversine_eq, distanceToHaversine_eq]
+  have e : R * 2 * arcsin (√h) / (2 * R) = arcsin (√h) := by field_simp
+  rw [e, sin_arcsin (by linarith [sqrt_nonneg h]) (sqrt_le_one.2 hh.2), sq_sqrt hh.1]
+
+/-! ### NormalizeDistance -/
+
+theorem twoPiR_pos : (0 : ℝ) < 2 * (π * R) := by positivity
+
+theorem normalize_idem (m : ℝ) :
+    Gen.normalizeDistance (Gen.normalizeDistance m) = Gen.normalizeDistance m := by
+  simp only [normalizeDistance_eq]
+  exact rmod_idem twoPiR_pos
+
+/-- `sin²(m / 2R)` has period `2πR` in `m` -/
+theorem normalize_haversine (m : ℝ) :
+    Gen.distanceToHaversine (Gen.normalizeDistance m) = Gen.distanceToHaversine m := by
+  rw [normalizeDistance_eq, distanceToHaversine_eq, distanceToHaversine_eq]
+  obtain ⟨k, hk⟩ := rmod_eq_sub_int_mul m (2 * (π * R))
+  rw [hk, show (m - 2 * (π * R) * (k : ℝ)) / (2 * R) = m / (2 * R) - (k : ℝ) * π by field_simp,
+    sin_sub_int_mul_pi, mul_pow]
+  have : ((-1 : ℝ) ^ k) ^ 2 = 1 := by
+    rw [← zpow_natCast, ← zpow_mul, mul_comm, zpow_mul]; norm_num
+  rw [this, one_mul]
+
+/-- a distance already in [0, 2πR) is left unchanged -/
+theorem normalize_of_lt (m : ℝ) (h : 0 ≤ m ∧ m < 2 * (π * R)) : Gen.normalizeDistance m = m := by
+  rw [normalizeDistance_eq]
+  exact rmod_of_abs_lt twoPiR_pos (by rw [abs_of_nonneg h.1]; exact h.2)
+
+/-! ### DestinationPoint: ranges -/
+
+theorem destination_lat_range (lat lon m brg : ℝ) :
+    -90 ≤ (Gen.destinationPoint lat lon m brg).1 ∧ (Gen.destinationPoint lat lon m brg).1 ≤ 90 := by
+  rw [destinationPoint_eq]
+  simp only [destPhi]
+  constructor
+  · apply le_mul_deg
+    have := neg_pi_div_two_le_arcsin
+      (sin (lat * rad) * cos (m / R) + cos (lat * rad) * sin (m / R) * cos (brg * rad))
+    linarith
+  · apply mul_deg_le
+    have := arcsin_le_pi_div_two
+      (sin (lat * rad) * cos (m / R) + cos (lat * rad) * sin (m / R) * cos (brg * rad))
+    linarith
+
+/-- Longitude range, for start longitudes ≥ −360° (in particular all valid ones). -/
+theorem destination_lon_range_partial (lat lon m brg : ℝ) (hlon : -360 ≤ lon) :
+    -180 ≤ (Gen.destinationPoint lat lon m brg).2 ∧ (Gen.destinationPoint lat lon m brg).2 < 180 := by
+  rw [destinationPoint_eq]
+  simp only
+  have hp := pi_pos
+  have harg : -π < destLam lat lon m brg - lon * rad := by
+    simp only [destLam, ratan2, add_sub_cancel_left]
+    exact Complex.neg_pi_lt_arg _
+  have hl : -360 * rad ≤ lon * rad := mul_rad_le hlon
+  have h0 : 0 ≤ destLam lat lon m brg + 3 * π := by nlinarith
+  obtain ⟨r0, r1⟩ := rmod_of_nonneg (by positivity : (0 : ℝ) < 2 * π) h0
+  constructor
+  · apply le_mul_deg; linarith
+  · have : (rmod (destLam lat lon m brg + 3 * π) (2 * π) - π) * deg < π * deg :=
+      mul_lt_mul_of_pos_right (by linarith) (by positivity)
+    have e : π * deg = 180 := by field_simp
+    linarith
+
+theorem destination_lon_range (lat lon m brg : ℝ) (hlon : -180 ≤ lon ∧ lon ≤ 180) :
+    -180 ≤ (Gen.destinationPoint lat lon m brg).2 ∧ (Gen.destinationPoint lat lon m brg).2 ≤ 180 := by
+  have := destination_lon_range_partial lat lon m brg (by linarith [hlon.1])
+  exact ⟨this.1, this.2.le⟩
+
+/-- Without a hypothesis on the start longitude the range claim is FALSE for the formula as
+    written: `DestinationPoint(0, −810, 0, 0) = (0, −450)`. -/
+theorem destination_lon_range_counterexample :
+    ¬ ∀ lat lon m brg : ℝ, -180 ≤ (Gen.destinationPoint lat lon m brg).2 ∧
+        (Gen.destinationPoint lat lon m brg).2 ≤ 180 := by
+  intro h
+  have h1 := (h 0 (-810) 0 0).1
+  rw [destinationPoint_eq] at h1
+  have hp := pi_pos
+  have e1 : destLam 0 (-810) 0 0 = -810 * rad := by
+    simp [destLam, destPhi, ratan2, Complex.arg_eq_zero_iff]
+  have e2 : rmod (-810 * rad + 3 * π) (2 * π) = -810 * rad + 3 * π := by
+    apply rmod_of_abs_lt (by positivity)
+    rw [abs_lt]; constructor <;> nlinarith
+  rw [e1, e2] at h1
+  have e3 : (-810 * rad + 3 * π - π) * deg = -450 := by field_simp; ring
+  simp only [e3] at h1
+  norm_num at h1
+
+/-! ### DegsToSemi / SemiToDegs (int32 modelled as unbounded `Int`, truncation toward zero) -/
+
+theorem semi_roundtrip (s : ℤ) : Gen.degsToSemi (Gen.semiToDegs s : ℝ) = s := by
+  rw [semiToDegs_eq, degsToSemi_eq]
+  have : (s : ℝ) * (180 / 2 ^ 31) * (2 ^ 31 / 180) = (s : ℝ) := by field_simp
+  rw [this, truncZ_intCast]
+
+/-! ### non-vacuity -/
+
+example : (0 : ℝ) ≤ 1000 ∧ (1000 : ℝ) ≤ π * R := by
+  constructor
+  · norm_num
+  · nlinarith [two_le_pi]
+
+example : Gen.distanceFromHaversine (Gen.distanceToHaversine (1000 : ℝ)) = 1000 :=
+  distanceFrom_to_id 1000 ⟨by norm_num, by nlinarith [two_le_pi]⟩
+
+example : Gen.distanceToHaversine (0 : ℝ) < Gen.distanceToHaversine (π * R) :=
+  distanceToHaversine_strictMono ⟨le_refl _, by positivity⟩ ⟨by positivity, le_refl _⟩
+    (by positivity)
+
+example : Gen.haversine (0 : ℝ) 0 0 180 = 1 := by
+  rw [haversine_eq]
+  have : (180 * rad - 0 * rad) / 2 = π / 2 := by field_simp; ring
+  rw [this]; simp
+
+example : Gen.distanceTo (0 : ℝ) 0 0 180 = π * R := by
+  rw [distanceTo_eq, distanceFromHaversine_eq, haversine_eq]
+  have : (180 * rad - 0 * rad) / 2 = π / 2 := by field_simp; ring
+  rw [this]; simp; ring
+
+end Geo.C15
+
+#print axioms Geo.C15.haversine_symm
+#print axioms Geo.C15.haversine_self
+#print axioms Geo.C15.haversine_nonneg
+#print axioms Geo.C15.haversine_le_one
+#print axioms Geo.C15.distanceTo_nonneg
+#print axioms Geo.C15.distanceTo_le_half_circumference
+#print axioms Geo.C15.distanceTo_symm
+#print axioms Geo.C15.distanceTo_self
+#print axioms Geo.C15.distanceToHaversine_strictMono
+#print axioms Geo.C15.distanceFrom_to_id
+#print axioms Geo.C15.distanceTo_from_id
+#print axioms Geo.C15.normalize_idem
+#print axioms Geo.C15.normalize_haversine
+#print axioms Geo.C15.normalize_of_lt
+#print axioms Geo.C15.destination_lat_range
+#print axioms Geo.C15.destination_lon_range_partial
+#print axioms Geo.C15.destination_lon_range
+#print axioms Geo.C15.destination_lon_range_counterexample
+#print axioms Geo.C15.semi_roundtrip
